@@ -479,7 +479,12 @@ def fact_events(bind, layout, kinds):
                     evs.append({"e": "fact", "kind": "ret_bits", "view": view, "field": f["name"], "name": f["get_sym"], "value": 8 * f["ret_size"]})
         if "legacy" in kinds:
             byid = {f["id"]: f["name"] for f in vb["fields"]}
+            known_alias, known_struct = set(layout.get("legacyaliasnames", [])), set(layout.get("legacystructnames", []))
             for fa in vb["facts"]:
+                # names the specification does not know (added upstream later) carry no claim: not validated
+                if fa["kind"] == "macro" and fa["name"] not in known_alias: continue
+                if fa["kind"] == "sizeof" and fa["name"] not in known_struct: continue
+                if fa["kind"] == "offsetof" and fa["name"].rsplit(".", 1)[0] not in known_struct: continue
                 if fa["kind"] == "macro":
                     if fa["value"] == vb["field_max"] and fa["name"].endswith("_MAX"):
                         evs.append({"e": "fact", "kind": "alias_max", "view": view, "name": fa["name"], "value": fa["value"]})
